@@ -123,6 +123,6 @@ def run_case(case, obs) -> None:  # noqa: C901
         obs.violation(f"not-symplectic:{iname}:{sname}",
                       f"max |J^T Omega J - Omega| = {d:.3e} over {case['n']} step(s), eps={eps:.4g}; sys={spec} int={ispec}")
     fc = "small" if case["frac"] < 0.08 else ("mid" if case["frac"] < 0.4 else "large")
-    obs.token(spec["sys"], spec.get("metric", spec.get("constr", "-")), ispec["int"], intgen.stages(ispec),
+    obs.token(spec["sys"], spec.get("metric", spec.get("constr", spec.get("generic", "-"))), ispec["int"], intgen.stages(ispec),
               ispec.get("solver", "-"), ispec.get("n_inner_step", 0), fc, case["n"])
     obs.sample({"sys": spec["sys"], "int": ispec, "eps": eps, "n": case["n"], "defect": d})
